@@ -20,6 +20,7 @@ requests (one token per argument; `-` is the empty field list)
   revg ng g            container group index of file position g in an adjoint file      -> INT
   nrec chiFlag [ords]  records of one ISOTXS nuclide                                     -> NAT
   offs [counts]        ISOTXS record offsets                                            -> [..]
+  aparse HEXTEXT       Python float(text) for an E-format text (parseFloatText)          -> BITS64 | reject
   adom i INT | adom d BITS64   is the value inside the ASCII field's accepted domain (asciiInt.ok / asciiReal.ok) -> T|F
 FIELDS := field(,field)*   field := iINT | lINT | fNAT(32-bit pattern) | dNAT(64-bit pattern) | sLEN:HEX
           in ASCII records f/d carry the 64-bit pattern of the Python float that is formatted
@@ -63,8 +64,8 @@ def parseField (t : String) : Option Field :=
 def parseFields (t : String) : Option (List Field) :=
   if t = "-" then some [] else (t.splitOn ",").mapM parseField
 
-/-- ASCII real fields are written by the model; reading them back is a parameter (`parse`), absent here -/
-def asciiFloat (declared : Nat) : Codec Nat := asciiReal (fun _ => none) declared
+/-- ASCII real fields: written and read back by the model (`asciiRealM`: `format` and `float` both modelled) -/
+def asciiFloat (declared : Nat) : Codec Nat := asciiRealM declared
 
 /-- the trace as a record body; `none` when a value is outside its routine's domain (struct.error) -/
 def bodyB : List Field → Option (RW Unit)
@@ -111,9 +112,13 @@ def readerB : List Kind → List Val → RW (List Val)
   | .d :: r, acc => .prim bits64 0 (fun x => readerB r (Val.n x :: acc))
   | .s len :: r, acc => .prim (str len) [] (fun x => readerB r (Val.s x :: acc))
 
-/-- ASCII: integer and text fields only (reading reals back is a parameter of the model) -/
+/-- ASCII: integer, real and text fields (no `rwLong`) -/
 def readerA : List Kind → List Val → Option (RW (List Val))
   | [], acc => some (.done acc.reverse)
+  | .f :: r, acc => if (readerA r []).isSome then
+      some (.prim (asciiRealM 4) 0 (fun x => (readerA r (Val.n x :: acc)).getD (.done []))) else none
+  | .d :: r, acc => if (readerA r []).isSome then
+      some (.prim (asciiRealM 8) 0 (fun x => (readerA r (Val.n x :: acc)).getD (.done []))) else none
   | .i :: r, acc => if (readerA r []).isSome then
       some (.prim asciiInt 0 (fun x => (readerA r (Val.i x :: acc)).getD (.done []))) else none
   | .s len :: r, acc => if (readerA r []).isSome then
@@ -224,7 +229,7 @@ def schemaAnswer (fmt mode env fs : String) : String :=
       match s.dry { env := env0, inp := vals, fuel := 8 * vals.length + 20000 } with
       | none => "short"   -- the schema asks for more values than the container's trace holds
       | some _ =>
-        let cs := if ascii then asciiCodecs (fun _ => none) else binaryCodecs
+        let cs := if ascii then asciiCodecsM else binaryCodecs
         let fr := if ascii then asciiFrame else binaryFrame
         let w := (schemaFile cs s env0 vals).write fr
         toHex w.1 ++ ";" ++ toString w.2.2.2
@@ -245,7 +250,12 @@ def answer : List String → String
       | some x => showBool (decide (-999999999 ≤ x ∧ x ≤ 999999999))
       | none => "bad-op"
   | ["adom", "d", n] => match parseNat? n with
-      | some n => showBool ((doubleParts n).isSome && (asciiRealField n).length == 24)
+      | some n => showBool (decide ((asciiRealM 8).ok n))
+      | none => "bad-op"
+  | ["aparse", h] => match fromHex h with
+      | some t => match parseFloatText t with
+        | some n => toString n
+        | none => "reject"
       | none => "bad-op"
   | ["recb", fs] => match parseFields fs with
       | some l => encode binaryFrame (bodyB l) (fun n => n < 2147483648)
